@@ -148,9 +148,6 @@ class Strings(Contract):
         # arrays (1-d and 2-d) and input containers
         if n >= 2 and len(codes) >= 4:
             a = [codes[0], codes[-1], codes[len(codes) // 2], codes[1]]
-            # documented out-of-domain region: a Python list mixing values in [2^63, 2^64) with smaller ones is float64 for NumPy
-            if any(2**63 <= v < 2**64 for v in a) and any(v < 2**63 for v in a):
-                a = [v if not (2**63 <= v < 2**64) else 2**62 + 3 for v in a]
             x1 = Fxp(a, s, n, f, raw=True)
             chk('array_render', x1.bin() == [spec_bin(c, n) for c in a] and x1.hex() == [spec_hex(c, n) for c in a], [a])
             x2 = Fxp([a[:2], a[2:]], s, n, f, raw=True)
